@@ -17,7 +17,7 @@ import (
 
 func init() {
 	vc.Register(&vc.Check{ID: "C06", Level: "model_checking", Run: run, Replay: replay, QuickSec: 170, ThoroSec: 1500,
-		Rule: "real Reader.ReadDocument (-> chipauth.DoChipAuth, pace CAM step) against the independent chip. Conforming side, all enumerated: 11 curves x {named, explicit parameters} x {3DES, AES-128/192/256} x key arrangement {one key without id, one key with id 1, one key with id 256, two keys with ids 1/2 and the info naming the second, two keys with ids 2/258 (equal low octet), no ChipAuthenticationInfo (3DES inferred, MSE:Set KAT)} x access control {BAC, PACE-GM}; terminal ephemeral scalar alphabet {2, n-2, pattern, leading-zero shared x} on every curve. Oracle: success reported, the chip switched keys and authenticated a command under them, two further protected reads succeed with equal restarted counters. Impostor side (chip without the private key): answers 9000 to MSE/GA, then to the protected probe every strategy of {own (wrong-key) session response, SM-formatted 9000 with an empty / 1-byte / zero / absent MAC, bare 9000, bare 6A82, garbage, replay of the old session's last response, command echoed, response under the old session keys}; CAM impostor: chip-authentication data computed with a non-certified key => never reported successful. states = reads, transitions = exchanges; distinct_nontrivial = distinct (configuration, scalar/strategy, outcome)",
+		Rule:   "real Reader.ReadDocument (-> chipauth.DoChipAuth, pace CAM step) against the independent chip. Conforming side, all enumerated: 11 curves x {named, explicit parameters} x {3DES, AES-128/192/256} x key arrangement {one key without id, one key with id 1, one key with id 256, two keys with ids 1/2 and the info naming the second, two keys with ids 2/258 (equal low octet), no ChipAuthenticationInfo (3DES inferred, MSE:Set KAT)} x access control {BAC, PACE-GM}; terminal ephemeral scalar alphabet {2, n-2, pattern, leading-zero shared x} on every curve. Oracle: success reported, the chip switched keys and authenticated a command under them, two further protected reads succeed with equal restarted counters. Impostor side (chip without the private key): answers 9000 to MSE/GA, then to the protected probe every strategy of {own (wrong-key) session response, SM-formatted 9000 with an empty / 1-byte / zero / absent MAC, bare 9000, bare 6A82, garbage, replay of the old session's last response, command echoed, response under the old session keys}; CAM impostor: chip-authentication data computed with a non-certified key => never reported successful. Histories through the chipauth API (BAC, then DoChipAuth; one reused ChipAuth object and a new one per run): every sequence of up to 3 (thorough 4) runs over {genuine chip, key-less clone replaying the recorded first response under the new keys, key-less clone under its own keys}. states = reads, transitions = exchanges; distinct_nontrivial = distinct (configuration, scalar/strategy, outcome)",
 		Assume: []string{"refchip CA follows ICAO 9303-11 §6.2 / BSI TR-03110 (ECKA with FE2OS secret, key switch after the response to GENERAL AUTHENTICATE / MSE:Set KAT, counter restart)", "discrete log not searched"}})
 }
 
@@ -347,9 +347,53 @@ imp:
 		c.Sample(caCase{Curve: "brainpoolP384r1", Explicit: true, Cipher: 3, Arr: "two", PACE: true})
 		c.Sample(caCase{Curve: "P-256", Cipher: 1, Arr: "noinfo", Clone: "own-wrong-key-session"})
 	}
+	// (4) histories of runs through the chipauth API on one session
+	sec4 := "histories of runs (chipauth API)"
+	depth := 3
+	if c.Thorough() {
+		depth = 4
+	}
+	seqs := histSeqs(depth)
+	hcfg := []histCase{{Curve: "P-256", Cipher: 2, Arr: "id"}, {Curve: "brainpoolP256r1", Cipher: 1, Arr: "noinfo"}, {Curve: "brainpoolP384r1", Cipher: 4, Arr: "two"}}
+	c.SecBound(sec4, fmt.Sprintf("%d configurations x all %d histories of up to %d runs (BAC, then DoChipAuth) over {genuine chip, key-less clone replaying the recorded first response under the new keys of the last genuine run, key-less clone answering under its own keys} x {one ChipAuth object for all runs, a new one per run}; terminal randoms never repeat", len(hcfg), len(seqs), depth))
+	for _, h0 := range hcfg {
+		for _, sq := range seqs {
+			for _, same := range []bool{true, false} {
+				if !c.Mine() {
+					continue
+				}
+				hc := h0
+				hc.Seq, hc.SameObject = sq, same
+				r := runHist(hc)
+				c.AddStates(int64(len(sq)))
+				c.AddTrans(int64(r.Exchanges))
+				c.AddTraces(1)
+				c.Outcome(sec4, r.Outcome)
+				c.Distinct(fmt.Sprintf("hist/%s/%d/%s/%v/%s", hc.Curve, hc.Cipher, sq, same, r.Outcome))
+				if r.Key == "harness" {
+					c.HarnessError("history %+v: %s", hc, r.What)
+					continue
+				}
+				if r.Key != "" {
+					c.Violation(sec4, r.Key, r.What, hc, func() bool { return runHist(hc).Key != "" })
+				}
+			}
+		}
+	}
 }
 
 func replay(c *vc.Ctx, raw json.RawMessage) string {
+	var hd struct {
+		Section string   `json:"section"`
+		Case    histCase `json:"case"`
+	}
+	if json.Unmarshal(raw, &hd) == nil && hd.Case.Seq != "" {
+		r := runHist(hd.Case)
+		if r.Key != "" {
+			c.Violation(hd.Section, r.Key, r.What, hd.Case, nil)
+		}
+		return fmt.Sprintf("history %+v -> %s; verdict: %s %s", hd.Case, r.Outcome, r.Key, r.What)
+	}
 	var doc struct {
 		Section string `json:"section"`
 		Case    caCase `json:"case"`
